@@ -162,7 +162,31 @@ def run(R, env):
         R.ob("C18.R2", "no-write-before-version-assert:" + v, not early, "writes %s are reachable without the source-version assertion" % [(ns_of(prog, o["args"][0]), o["op"]) for o in early], fn=mb.key)
     # ------------------------------------------------------------ R3
     sv = [(bi, t, a) for bi, t, a in call_sites(c, lambda nm: nm == "cw2::set_contract_version")]
-    R.ob("C18.R3", "records-new-version", len(sv) == 1, "found %d set_contract_version calls in migrate" % len(sv), fn=key)
+    if not sv:
+        # `migration_result.and_then(|resp| { set_contract_version(..)?; Ok(resp) })`: the version is
+        # recorded in a closure that runs only after, and only if, the migration succeeded
+        from engine.analysis import inline_walk as _iw2, must_pass as _mp2
+        for c_, p_ in _iw2(prog, c, 1):
+            if c_.body.kind != "closure" or not p_:
+                continue
+            inner = [(bi, t, a) for bi, t, a in call_sites(c_, lambda nm: nm == "cw2::set_contract_version")]
+            drv = [(bi, a) for bi, t, a in call_sites(c, lambda nm: nm == "std::result::Result::and_then") if len(a) == 2 and a[1][0] == "closure" and a[1][1] == c_.body.key]
+            if len(inner) == 1 and len(drv) == 1:
+                ibi, it, ia = inner[0]
+                good = len(ia) == 3 and ia[1][0] == "item" and ia[1][1].endswith("CONTRACT_NAME") and ia[2][0] == "item" and ia[2][1].endswith("CONTRACT_VERSION")
+                R.ob("C18.R3", "records-new-version", True, "recorded in the and_then closure", fn=key)
+                R.ob("C18.R3", "version-arguments", good, "set_contract_version(%s, %s)" % (fmt(ia[1]) if len(ia) > 1 else None, fmt(ia[2]) if len(ia) > 2 else None), loc=c_.body.loc(ibi), fn=key)
+                R.ob("C18.R3", "on-every-success-path", _mp2(c_, ibi) and _mp2(c, drv[0][0]), "migrate can succeed without recording the new version", loc=c_.body.loc(ibi), fn=key)
+                # the closure's receiver is the migration's own result
+                recv = drv[0][1][0]
+                after = bool(migs) and all(any(s_[0] == "call" and shared._body_of_call(prog, s_) is not None and shared._body_of_call(prog, s_).key == mc_.body.key for s_ in subterms(recv)) for mc_, _ in migs.values())
+                R.ob("C18.R3", "after-the-migration", after, "the version is recorded before the migration function runs (its source-version assertion would then fail or be bypassed)", loc=c_.body.loc(ibi), fn=key)
+                sv = None
+                break
+    if sv is None:
+        sv = []
+    else:
+        R.ob("C18.R3", "records-new-version", len(sv) == 1, "found %d set_contract_version calls in migrate" % len(sv), fn=key)
     for bi, t, a in sv:
         good = len(a) == 3 and a[1][0] == "item" and a[1][1].endswith("CONTRACT_NAME") and a[2][0] == "item" and a[2][1].endswith("CONTRACT_VERSION")
         R.ob("C18.R3", "version-arguments", good, "set_contract_version(%s, %s)" % (fmt(a[1]) if len(a) > 1 else None, fmt(a[2]) if len(a) > 2 else None), loc=c.body.loc(bi), fn=key)
